@@ -49,6 +49,12 @@ class Ctx(object):
             rec['sample'] = sample
         self._w(rec)
 
+    def sample(self, obj):
+        """emit one actual case per worker as an evidence sample (first call wins)"""
+        if not getattr(self, '_sampled', False):
+            self._sampled = True
+            self._w({'t': 'case', 'n': 0, 'sample': obj})
+
     def viol(self, key, what, case=None, detail=None):
         """One oracle disagreement.  key = mechanism signature (never an input hash)."""
         c = self._nviol.get(key, 0)
